@@ -9,7 +9,7 @@ from typing import Any, Dict, List, Optional, Set
 
 from ..effects import Analyzer
 from ..interp import Arr, Interp, Unsupported, Raised
-from ..model import AnalysisError, Model, src, walk_no_nested, \
+from ..model import staged, AnalysisError, Model, src, walk_no_nested, \
     nested_functions
 
 PID = "C17"
@@ -647,9 +647,8 @@ def run(model: Model, rep, tier: str) -> None:
     rep.rule("C17-R5", "I/O functions do not modify their operands")
     hexm = _r1(model, rep)
     _r2(rep, hexm)
-    _r3(model, rep)
-    _r4(model, rep)
-    _r5(model, rep)
+    staged(lambda: _r3(model, rep), lambda: _r4(model, rep),
+           lambda: _r5(model, rep))
     rep.require_min("C17-R1", 9)
     rep.require_min("C17-R2", 5)
     rep.require_min("C17-R5", 12)
